@@ -41,7 +41,17 @@ def _single_return(ft, ref: FuncRef) -> Term:
                            construct=f"extra-return:{ref.node.name}", necessity="a shortcut return changes what the environment reports in the states that take it")
     elif len(rets) > 1:
         raise AnalysisError(f"{ref.short}: expected a single return, found {len(rets)}")
-    return rets[-1].value
+    # terms carry no time: a value that is patched in place after it was computed (`mask[:] = True`) still has the term of the formula
+    rv = rets[-1].value
+    if _COL and isinstance(rv, tuple):
+        for e in list(ft.of_kind("store")) + list(ft.of_kind("aug")):
+            base = e.obj if e.kind == "store" else e.target
+            while isinstance(base, tuple) and base[0] == "index":
+                base = base[1]
+            if e.index is not None and base == rv and e.seq < rets[-1].seq:
+                _COL[-1].check(False, ref.where(e.node), ref.short, f"{ref.node.name} returns its formula unmodified (in-place write into the value before it is returned)",
+                               construct=f"patched-result:{ref.node.name}", necessity="an in-place patch changes what the environment reports in the states that take it")
+    return rv
 
 
 # --------------------------------------------------------------------------------------
